@@ -26,6 +26,36 @@ def _nonfinite(make, obs, field):
     return run
 
 
+def _cuboid_near_edge(field):
+    def run():
+        import magpylib as magpy
+        dim = np.array([0.741729328973483, 1.6081234329282101, 1.9037932035074583])
+        c = magpy.magnet.Cuboid(dimension=dim, polarization=(-0.098, 0.757, 0.576))
+        obs = np.array([dim[0] / 2 * (1 + 1e-14), -dim[1] / 2 * (1 + 1e-14), 0.8929812724567276])
+        with warnings.catch_warnings():
+            warnings.simplefilter("ignore")
+            v = getattr(magpy, "get" + field)(c, obs)
+        return (not bool(np.all(np.isfinite(v)))), {"dimension": dim.tolist(), "observer": obs.tolist(), "field": field, "value": np.asarray(v).tolist()}
+    return run
+
+
+def _cylinder_denormal_hang():
+    """Cylinder of height 2e-150, twelve observers on the hull 1e-14 (relative) above the top edge: celv never returns"""
+    import os
+    import subprocess
+    import sys
+    code = ("import numpy as np, magpylib as magpy\n"
+            "c = magpy.magnet.Cylinder(polarization=(0,0,1), dimension=(2, 2e-150))\n"
+            "print(c.getB(np.array([[1.0, 0, 1.00000000000001e-150]]*12))[0])\n")
+    env = {**os.environ, "PYTHONPATH": os.environ.get("VERIF_REPO", "/repo")}
+    try:
+        r = subprocess.run([sys.executable, "-c", code], capture_output=True, text=True, timeout=8, env=env)
+    except subprocess.TimeoutExpired:
+        return True, {"reproduce": code, "outcome": "no result within 8 s"}
+    bad = r.returncode != 0 or "nan" in r.stdout or "inf" in r.stdout
+    return bad, {"reproduce": code, "outcome": (r.stdout + r.stderr)[-300:]}
+
+
 def _dipole(magpy):
     return magpy.misc.Dipole(moment=(0.3, -0.2, 0.5))
 
@@ -102,6 +132,8 @@ REPLAYS = {
         **{f"non-finite:Dipole:{variant}:{f}": _nonfinite(_dipole, [[5e-324, 0.0, 0.0], [1e-160, 1e-160, 1e-160]], f)
            for variant in ("plain", "tiny", "huge", "zero-size") for f in "BH"},
         **{f"non-finite:Sphere:zero-size:{f}": _nonfinite(_sphere0, [[5e-324, 0.0, 0.0], [1e-160, 1e-160, 1e-160]], f) for f in "BH"},
+        **{f"non-finite:Cuboid:near-edge:{f}": _cuboid_near_edge(f) for f in "BH"},
+        "hang-or-crash:Cylinder:denormal-height": _cylinder_denormal_hang,
     },
     "C16": {"status:prism:selfintersection-not-detected": _c16_interpenetrating("prism"),
             "status:hull:selfintersection-not-detected": _c16_interpenetrating("hull")},
